@@ -156,7 +156,7 @@ def capture (r : Runner) (capnum : Nat) (start end_ : Int) : Runner :=
     interval just matched and the interval `(start2, end2)` being cancelled -/
 def transferInterval (start end_ start2 end2 : Int) : Int × Int :=
   if start ≥ end2 then (end2, start)
-  else if end_ ≤ start2 then (start2, end_)
+  else if end_ ≤ start2 then (end_, start2)
   else (if start2 > start then start2 else start, if end_ > end2 then end2 else end_)
 
 /-- `(*Runner).transferCapture(capnum, uncapnum, start, end)`; `capnum = -1` for `(?<-a>…)` -/
